@@ -28,6 +28,11 @@ def run(ctx, rep):
     parameters(prog, rep)
     centred(prog, rep)
     try:
+        unmodified_line(prog, rep)
+    except Exception as e:
+        import traceback; traceback.print_exc()
+        rep.fail("R17.7", "engine", "styled entry analysis crashed: %r" % (e,), status="undecided")
+    try:
         pass_through(prog, rep)
     except Exception as e:
         import traceback; traceback.print_exc()
@@ -357,3 +362,39 @@ def pass_through(prog, rep):
     rep.check(not bad and n_some >= 1 and n_none >= 1, "R17.6", "line:pixels-pass-through",
               "StyledPixelsIterator::next of a line must return Pixel(p, colour) for exactly the next point p of its ThickPoints iterator: %s" % ("; ".join(bad[:2]) or "no passing path found"),
               at=nx.span, fn=nx.path, detail={"paths": len(summs)})
+
+
+def unmodified_line(prog, rep):
+    """R17.7 both styled entry points of a Line build their pixel iterator from the line as it is, on every path:
+    `pixels(style)` returns StyledPixelsIterator::new(self, style) and `draw_styled` hands exactly that to draw_iter.  A
+    "normalised" (reversed) line walks the other way — Bresenham breaks ties relative to the direction, so the stroke no
+    longer contains the thin line of the original."""
+    fs = {}
+    for f in prog.fns.values():
+        if f.body and f.kind == "assoc_fn" and (f.span or "").startswith("src/primitives/line/styled.rs") and f.name in ("pixels", "draw_styled") and "::tests" not in f.id:
+            fs[f.name] = f
+    if set(fs) != {"pixels", "draw_styled"}:
+        rep.fail("R17.7", "line:styled-entry", "anchor lost: %s" % sorted(fs), status="undecided")
+        return
+    P_ = Paths(prog, inline=lambda g: prog.is_new(g))
+    for nm, f in sorted(fs.items()):
+        try:
+            summs = P_.of(f)
+        except Unsupported as e:
+            rep.fail("R17.7", "line:" + nm, "cannot summarise: %s" % e, status="undecided", at=f.span, fn=f.path)
+            continue
+        bad = []
+        for sm in summs:
+            news = []
+            for tr in [sm.ret] + [e[1] if e[0] == "call" else e[2] for e in sm.effects]:
+                if isinstance(tr, tuple):
+                    news += [n for n in walk(tr) if isinstance(n, tuple) and n and n[0] == "call" and n[1].endswith("StyledPixelsIterator::<C>::new") and "line::styled" in n[1]]
+            cond = "; ".join(show_fact(x)[:70] for x in sm.facts[:2]) or "always"
+            if not news:
+                bad.append("when %s no pixel iterator is built" % cond)
+                continue
+            for nn in news:
+                a = [strip_refs(x) for x in nn[3]]
+                if len(a) != 2 or a[0] != P(1, "self") or a[1] != P(2, "style"):
+                    bad.append("when %s the iterator is built from %s" % (cond, show(nn, maxd=4)))
+        rep.check(bool(summs) and not bad, "R17.7", "line:" + nm, "%s of a Line must build StyledPixelsIterator::new(self, style) on every path: %s" % (nm, "; ".join(sorted(set(bad))[:2])), at=f.span, fn=f.path)
